@@ -243,6 +243,9 @@ func caseC09Format(c *hx.Case) {
 
 func FuzzC09_Format(f *testing.F) { hx.Fuzz(f, "C09", "Format", caseC09Format) }
 
+// c09Prev is the source of the previous case (a deterministic "unrelated text").
+var c09Prev = []byte("a = 1\n")
+
 // checkFormat is the C09 oracle for one error-free source text.
 func checkFormat(c *hx.Case, src []byte, ctx *hcl.EvalContext) {
 	f1, diags := hclsyntax.ParseConfig(src, "t.hcl", hcl.InitialPos)
@@ -279,11 +282,21 @@ func checkFormat(c *hx.Case, src []byte, ctx *hcl.EvalContext) {
 	if strings.Join(v1, "\n") != strings.Join(v2, "\n") {
 		c.Failf("values-changed", "attribute values differ after formatting:\n before: %.600s\n after:  %.600s", strings.Join(v1, "; "), strings.Join(v2, "; "))
 	}
+	snapshot := string(out)
 	var again []byte
 	c.Guard("Format", func() { again = hclwrite.Format(out) })
 	if !bytes.Equal(again, out) {
 		c.Set("formatted_twice", string(again))
 		c.Failf("not-idempotent", "formatting the output again changes it")
+	}
+	// a result stays what it was when the formatter is used again (on its own output and on
+	// an unrelated text: the previous case's source)
+	againSnapshot := string(again)
+	c.Guard("Format", func() { _ = hclwrite.Format(c09Prev) })
+	c09Prev = append([]byte{}, src...)
+	if string(out) != snapshot || string(again) != againSnapshot {
+		c.Set("formatted_now", string(out))
+		c.Failf("result-invalidated", "the bytes returned by Format changed after later Format calls")
 	}
 	lines := bytes.Count(src, []byte("\n"))
 	c.Done(len(inToks) >= 10 && lines >= 2 && !bytes.Equal(out, src), string(src))
